@@ -536,3 +536,79 @@ def plan_class(plan):
     else:
         c = 'sequential-distinct'
     return c + ('+exception' if exc else '')
+
+
+# ---------------------------------------------------------------------------------------
+# wrapper / decorator / callable-object factories: the object is CREATED under precision A and CALLED under
+# precision B != A.   label -> (public name, make(ctx, cb) -> object, [call(ctx, obj), ...])
+# ---------------------------------------------------------------------------------------
+FACTORIES = {}
+
+
+def _fac(label, name, make, calls):
+    FACTORIES[label] = (name, make, calls)
+
+
+def _quadmod():
+    return __import__('mpmath').calculus.quadrature
+
+
+_three = lambda f: [f, f, f]
+_fac('autoprec', 'autoprec', lambda c, cb: c.autoprec(cb(lambda t: c.exp(t) - 1)),
+     [lambda c, g: g(c.mpf('1e-10')), lambda c, g: g(c.mpf(2)), lambda c, g: g(c.mpf('1e-10'))])
+_fac('autoprec/catch', 'autoprec', lambda c, cb: c.autoprec(cb(lambda t: 1 / (c.exp(t) - 1)), catch=ZeroDivisionError),
+     _three(lambda c, g: g(c.mpf('1e-30'))))
+_fac('autoprec/maxprec', 'autoprec', lambda c, cb: c.autoprec(cb(lambda t: c.rand()), maxprec=200), _three(lambda c, g: g(1)))
+_fac('autoprec/verbose-tuple', 'autoprec', lambda c, cb: c.autoprec(cb(lambda t, u=1: c.sqrt(t) * u), 500),
+     [lambda c, g: g(2), lambda c, g: g(3, u=2)])
+_fac('memoize', 'memoize', lambda c, cb: c.memoize(cb(c.sin)),
+     [lambda c, g: g(1), lambda c, g: g(1), lambda c, g: g(2), lambda c, g: g(1)])
+_fac('maxcalls', 'maxcalls', lambda c, cb: c.maxcalls(cb(c.sin), 2), _three(lambda c, g: g(1)))
+_fac('memoize(autoprec)', 'memoize', lambda c, cb: c.memoize(c.autoprec(cb(lambda t: c.exp(t) - 1))),
+     [lambda c, g: g(c.mpf('1e-10')), lambda c, g: g(c.mpf('1e-10')), lambda c, g: g(c.mpf(3))])
+for _k, _n in (('workprec', 100), ('workdps', 30), ('extraprec', 20), ('extradps', 5)):
+    _fac('%s/decorator' % _k, _k, (lambda c, cb, _k=_k, _n=_n: getattr(c, _k)(_n)(cb(c.exp))), _three(lambda c, g: g(1)))
+    _fac('%s/decorator-normalize' % _k, _k,
+         (lambda c, cb, _k=_k, _n=_n: getattr(c, _k)(_n, normalize_output=True)(cb(lambda x: (c.exp(x), c.sin(x))))),
+         _three(lambda c, g: g(1)))
+
+    def _use(c, m):
+        with m:
+            return c.exp(1)
+    _fac('%s/with' % _k, _k, (lambda c, cb, _k=_k, _n=_n: getattr(c, _k)(_n)), [_use, _use, _use])
+_fac('odefun/interpolant', 'odefun', lambda c, cb: c.odefun(cb(lambda x, y: y), 0, 1),
+     [lambda c, f: f(1), lambda c, f: f(c.mpf(0.5)), lambda c, f: f(2)])
+_fac('odefun/system', 'odefun', lambda c, cb: c.odefun(cb(lambda x, y: [-y[1], y[0]]), 0, [1, 0]),
+     [lambda c, f: f(1), lambda c, f: f(2)])
+_fac('diffun', 'diffun', lambda c, cb: c.diffun(cb(c.sin), 2), _three(lambda c, g: g(1)))
+_fac('diffun/quad', 'diffun', lambda c, cb: c.diffun(cb(c.sin), 1, method='quad'), [lambda c, g: g(1), lambda c, g: g(2)])
+_fac('fourier->fourierval', 'fourierval', lambda c, cb: c.fourier(cb(lambda x: x * x), [-1, 1], 3),
+     [lambda c, s: c.fourierval(s, [-1, 1], c.mpf(0.25)), lambda c, s: c.fourierval(s, [-1, 1], c.mpf(0.5))])
+_fac('chebyfit->polyval', 'polyval', lambda c, cb: c.chebyfit(cb(c.cos), [1, 2], 5),
+     [lambda c, p: c.polyval(p, c.mpf(1.5)), lambda c, p: c.polyval(p, c.mpf(1.25), derivative=True)])
+_fac('taylor->polyval', 'polyval', lambda c, cb: c.taylor(cb(c.exp), 0, 5)[::-1], _three(lambda c, p: c.polyval(p, c.mpf(0.5))))
+_fac('diffs/generator', 'diffs', lambda c, cb: c.diffs(cb(c.exp), 1, 8), [lambda c, g: next(g)] * 5)
+_fac('diffs/generator-singular', 'diffs', lambda c, cb: c.diffs(cb(c.exp), 1, 6, singular=True), [lambda c, g: next(g)] * 4)
+_fac('TanhSinh/rule-object', 'quad', lambda c, cb: (_quadmod().TanhSinh(c), cb(lambda x: c.exp(-x * x))),
+     [lambda c, o: o[0].summation(o[1], [c.mpf(0), c.mpf(1)], c.prec, c.eps * 8, 6),
+      lambda c, o: o[0].get_nodes(0, 1, 3, c.prec + 7),
+      lambda c, o: o[0].calc_nodes(2, c.prec + 9),
+      lambda c, o: o[0].guess_degree(c.prec)])
+_fac('GaussLegendre/rule-object', 'quad', lambda c, cb: (_quadmod().GaussLegendre(c), cb(lambda x: c.exp(-x * x))),
+     [lambda c, o: o[0].summation(o[1], [c.mpf(0), c.mpf(1)], c.prec, c.eps * 8, 4),
+      lambda c, o: o[0].get_nodes(0, 1, 2, c.prec + 7),
+      lambda c, o: o[0].calc_nodes(1, c.prec + 9)])
+_fac('quad/after-use-under-A', 'quad', lambda c, cb: (c.quad(c.exp, [0, 1]), cb(lambda x: c.exp(-x * x)))[1],
+     [lambda c, f: c.quad(f, [0, 1]), lambda c, f: c.quadgl(f, [0, 1]), lambda c, f: c.quad(f, [0, c.inf])])
+_fac('levin/object', 'levin', lambda c, cb: (c.levin(method='levin', variant='u'), cb(lambda k: 1 / c.mpf(k) ** 2)),
+     [lambda c, o: o[0].update([o[1](k) for k in range(1, 6)]), lambda c, o: o[0].update([o[1](k) for k in range(6, 11)])])
+_fac('cohen_alt/object', 'cohen_alt', lambda c, cb: (c.cohen_alt(), cb(lambda k: 1 / c.mpf(k + 1))),
+     [lambda c, o: o[0].update([o[1](k) for k in range(0, 8)]), lambda c, o: o[0].update([o[1](k) for k in range(0, 12)])])
+_fac('usertools.monitor', 'monitor', lambda c, cb: __import__('mpmath').monitor(cb(c.sin), input=lambda *a: None, output=lambda *a: None),
+     _three(lambda c, g: g(1)))
+_fac('constant/call', 'pi', lambda c, cb: (c.pi, c.euler, cb(lambda: 0)),
+     [lambda c, o: (o[0](prec=200), o[1](dps=40), +o[0], o[2]()), lambda c, o: (o[0] * 2, 1 / o[1])])
+_fac('matrix/created-under-A', 'matrix', lambda c, cb: (c.matrix([[1, 2], [3, 4.5]]), cb(c.exp)),
+     [lambda c, o: o[0].apply(o[1]), lambda c, o: c.expm(o[0]), lambda c, o: c.lu_solve(o[0], c.matrix([1, 2])), lambda c, o: o[0] ** 3])
+_fac('findroot-solver-closure', 'findroot', lambda c, cb: cb(lambda x: x * x - 2),
+     [lambda c, f: c.findroot(f, 1), lambda c, f: c.findroot(f, (1, 2), solver='anderson')])
